@@ -447,3 +447,109 @@ PROPERTY = {
                     "after trim_qubits / reindex_qubits the width is the number of used qubits / max(new index)+1 (documented purpose) even for fixed-width circuits"],
     "trusted_base": ["tverif AST interpreter", "z3"],
 }
+
+
+# ---------------------------------------------------------------------------------------------------------------------
+# P2  add_gate on an ARBITRARY circuit (opaque gate list / counts / index set of any size)
+
+def p2_structures(tier):
+    sts = []
+    for name in ("H", "RZ", "CNOT", "CRZ", "SWAP", "CSWAP", "MEASURE", "POTATO", "CPOTATO"):
+        up = name.upper()
+        nts = (2,) if up in TWO_TARGET else ((1,) if up in ONE_TARGET else (1, 2))
+        for nt in nts:
+            for nc in ((0,) if not up.startswith("C") else (1, 2)):
+                for fixed in ("none", "sym"):
+                    for var in (False, True):
+                        sts.append({"name": name, "nt": nt, "nc": nc, "fixed": fixed, "var": var})
+    return sts
+
+
+@contract("C11", "P2.add_gate.any_circuit", targets=[(C, "Circuit.add_gate"), (G, "Gate.__init__")], level="P", structures=p2_structures, max_paths=3000,
+          native_samples=lambda st, rnd, tier: [{**{f"q{i}": rnd.choice([0, 1, 2, 3, 5, 5]) for i in range(st["nt"] + st["nc"])}, "N": rnd.choice([1, 3, 6])} for _ in range(4)])
+def p2(h, st):
+    """for a circuit whose gate list, counts, arity counts and qubit-index set are ARBITRARY (opaque, any size) and a gate with symbolic integer qubit indices:
+    add_gate either (normal return, iff the gate is well-formed and every index < n_qubits when that is set) appends exactly one fresh field-wise copy of the gate,
+    appends that same object to the variational gates iff the gate is variational, adds exactly the gate's qubits to the index set, increments counts[NAME] and
+    arity_counts[#qubits] by one and touches nothing else; or (ValueError) leaves EVERY container untouched. With count(old ++ [g]) = count(old) + [name = g.name]
+    this is preservation of the representation invariant for circuits of any length, and exception safety"""
+    from tangelo.linq import Gate, Circuit
+    from tverif.engine import GhostList, GhostSet, GhostDict
+    name, nt, nc = st["name"], st["nt"], st["nc"]
+    qs = [h.integer(f"q{i}") for i in range(nt + nc)]
+    g = Gate.__new__(Gate)
+    g.__dict__ = {"name": name, "target": list(qs[:nt]), "control": (list(qs[nt:]) if nc else None), "parameter": 0.5, "is_variational": st["var"]}
+    g_before = snapshot(g.__dict__)
+    c = Circuit.__new__(Circuit)
+    N = h.integer("N") if st["fixed"] == "sym" else None
+    if N is not None:
+        h.assume(N >= 0)
+    gates, vgates = GhostList("_gates"), GhostList("_variational_gates")
+    qidx, cnt, acnt = GhostSet("_qubit_indices"), GhostDict("counts", h.ctx), GhostDict("arity_counts", h.ctx)
+    other = {"name": "circ", "_probabilities": {}, "_cmeasure_control": None, "_applied_gates": []}
+    c.__dict__ = {"_gates": gates, "_variational_gates": vgates, "_qubit_indices": qidx, "_gate_counts": cnt, "_n_qubit_gate_counts": acnt, "_qubits_simulated": N, **other}
+    e = h.raises(lambda: h.call(C, "Circuit.add_gate", c, g), ValueError)
+    h.check("argument gate unchanged", snapshot(g.__dict__) == g_before)
+    h.check("no field rebound", c.__dict__["_gates"] is gates and c.__dict__["_variational_gates"] is vgates and c.__dict__["_qubit_indices"] is qidx
+            and c.__dict__["_gate_counts"] is cnt and c.__dict__["_n_qubit_gate_counts"] is acnt and all(c.__dict__[k] is v or c.__dict__[k] == v for k, v in other.items()))
+    wf = True
+    for q in qs:
+        wf = wf & (q >= 0) if h.symbolic else (wf and q >= 0)
+    for a, b in itertools.combinations(qs, 2):
+        wf = wf & (a != b) if h.symbolic else (wf and a != b)
+    in_range = True
+    if N is not None:
+        for q in qs:
+            in_range = in_range & ((N == 0) | (q < N)) if h.symbolic else (in_range and (N == 0 or q < N))
+    if e is not None:
+        ok = (wf & in_range) if h.symbolic else (wf and in_range)
+        h.check("rejected only if ill-formed or out of range", (~ok) if h.symbolic and not isinstance(ok, bool) else (not ok))
+        h.check("exception safety: gate list untouched", gates.appended == [] and vgates.appended == [])
+        h.check("exception safety: index set untouched", qidx.added == [])
+        h.check("exception safety: counts untouched", cnt.written == {} and acnt.written == {})
+        h.done()
+        return
+    h.check("accepted only if well-formed", wf)
+    h.check("accepted only if every index is below the fixed width", in_range)
+    h.check("exactly one gate appended", len(gates.appended) == 1)
+    ng = gates.appended[0]
+    h.check("the appended gate is a fresh copy", ng is not g and ng.target is not g.target and (ng.control is None or ng.control is not g.control))
+    h.check("field-wise equal to the argument (name upper-cased)", ng.name == name.upper() and len(ng.target) == nt and (ng.control is None) == (nc == 0)
+            and ng.parameter == 0.5 and ng.is_variational == st["var"])
+    for i, q in enumerate(qs):
+        got = ng.target[i] if i < nt else ng.control[i - nt]
+        h.check_close(f"qubit {i} of the copy", got, q)
+    h.check("variational list: the same object appended iff variational", (vgates.appended == [ng] and vgates.appended[0] is ng) if st["var"] else vgates.appended == [])
+    h.check("index set: exactly the gate's qubits added", len(qidx.added) == nt + nc)
+    for i, q in enumerate(qs):
+        h.check_close(f"index {i} added", qidx.added[i], q)
+    h.check("counts: exactly the entry of the gate's name written", set(cnt.written) == {name.upper()})
+    h.check_close("counts[name] == old + 1", cnt.written.get(name.upper(), 0), cnt.old(name.upper()) + 1)
+    h.check("arity counts: exactly the entry of the gate's arity written", set(acnt.written) == {nt + nc})
+    h.check_close("arity_counts[k] == old + 1", acnt.written.get(nt + nc, 0), acnt.old(nt + nc) + 1)
+    h.done()
+
+
+@contract("C11", "P3.lemma.count_on_append", level="P", structures=lambda tier: [None])
+def p3(h, st):
+    """spec-level lemma (z3, quantified over all names x and all old count functions): if counts == CN_old pointwise and the call wrote counts[g] := counts.get(g,0)+1
+    and nothing else, then counts' == CN_old + [x == g] pointwise, i.e. the invariant 'counts equal the number of gates of each name' is preserved by an append"""
+    import z3
+    if not h.symbolic:
+        h.check("native: n/a", True)
+        h.done()
+        return
+    Name = z3.DeclareSort("Name")
+    cnt = z3.Function("cnt", Name, z3.IntSort())
+    CN = z3.Function("CN", Name, z3.IntSort())
+    g, x = z3.Const("g", Name), z3.Const("x", Name)
+    y = z3.Const("y", Name)
+    pre = z3.ForAll([y], cnt(y) == CN(y))
+    cnt2 = lambda k: z3.If(k == g, cnt(g) + 1, cnt(k))
+    CN2 = lambda k: CN(k) + z3.If(k == g, 1, 0)
+    s = z3.Solver()
+    s.add(pre, cnt2(x) != CN2(x))
+    from tverif.sym import SBool
+    r = s.check()
+    h.check("counts' == CN' at an arbitrary name", r == z3.unsat, detail=str(r))
+    h.done()
